@@ -31,7 +31,7 @@ def main(argv):
         common.prove(ctx, modules=getattr(mod, 'LEAN_MODULES', None), clean=(tier == 'thorough'))
         # the implementation under test prints warnings/progress: keep stdout for the verdict lines only
         import contextlib, io
-        with contextlib.redirect_stdout(io.StringIO()):
+        with contextlib.redirect_stdout(io.StringIO()), contextlib.redirect_stderr(io.StringIO()):
             mod.run(ctx)
         return common.finish(ctx)
     except Exception:
